@@ -66,6 +66,7 @@ pub fn main(args: &Args) -> i32 {
         }
         gate.disarm_all();
         session_probe(&mut rep);
+        if shard == 0 { rtr_timing_probe(&mut rep); }
     }
     for (idx, b) in behaviours.iter().enumerate() {
         if idx % nshards != shard { continue }
@@ -637,6 +638,31 @@ fn freerun(args: &Args, out: &str) -> i32 {
 /// session's identifier with a serial that happens to equal the current one
 /// presents a version different from the served one and must not block; the
 /// same holds for other serials of other sessions.
+/// The Refresh Interval the RTR server announces in End of Data (SharedHistory::timing, RtrTiming.tla):
+/// the time until the next data set is expected, in whole seconds.  RFC 8210 allows 1 .. 86400.  Queried every 100 ms
+/// over one refresh period of 2 s; the smallest and largest values go into the evidence (not a listed property).
+fn rtr_timing_probe(rep: &mut Report) {
+    let mut fx = Fixture::start(|c| { c.refresh = Duration::from_secs(2); c.history_size = 10; });
+    if fx.process_once(&slurm(&concrete(1)), true).is_err() { return }
+    let _ = fx.process_once(&slurm(&concrete(2)), false);
+    let t0 = std::time::Instant::now();
+    let mut hints: Vec<(u128, u32)> = Vec::new();
+    while t0.elapsed() < Duration::from_millis(2600) {
+        let a = rtr_query(fx.rtr_port, None, Duration::from_secs(2));
+        if let Some((refresh, _, _)) = a.timing { hints.push((t0.elapsed().as_millis(), refresh)); }
+        std::thread::sleep(Duration::from_millis(100));
+    }
+    if hints.is_empty() { rep.divergence("C15", "RTR timing probe: no End of Data with timing parameters seen"); return }
+    let min = hints.iter().map(|h| h.1).min().unwrap();
+    let max = hints.iter().map(|h| h.1).max().unwrap();
+    rep.note("C15", "rtr_refresh_hint_seconds", json!({"min": min, "max": max, "samples": hints.len(),
+        "series_ms_value": hints.iter().map(|h| json!([h.0, h.1])).collect::<Vec<_>>()}));
+    if min == 0 {
+        rep.add_note("C15", "rtr_refresh_hint_zero_seen", 1);
+        rep.divergence("C15", format!("observation (not a listed property): End of Data announced a Refresh Interval of 0 s ({} of {} answers; RFC 8210 allows 1..86400):                                        RtrTiming.tla RefreshHintInRange, variant as_coded", hints.iter().filter(|h| h.1 == 0).count(), hints.len()));
+    }
+}
+
 fn session_probe(rep: &mut Report) {
     let mut fx = Fixture::start(|c| { c.history_size = 10; });
     let port = fx.http_port;
